@@ -789,6 +789,13 @@ func genSTLDoc(t *rapid.T, avoidKnown bool) stlDoc {
 		if c.Out.frames(d.GSI.Rate) < base {
 			c.Out = d.GSI.TCP
 		}
+		if !avoidKnown && base > 0 && rapid.IntRange(0, 5).Draw(t, "beforestart") == 0 {
+			// a block timed ahead of the programme start (a slate, a countdown): its times relative to the start are negative
+			c.In = tcFromFrames(rapid.Int64Range(0, base).Draw(t, "earlyin"), d.GSI.Rate)
+			if rapid.Bool().Draw(t, "earlyout") {
+				c.Out = tcFromFrames(rapid.Int64Range(0, base).Draw(t, "earlyoutv"), d.GSI.Rate)
+			}
+		}
 		nr := rapid.IntRange(1, 3).Draw(t, "rows")
 		budget := 100
 		// 1 cue in 6: a single open-subtitling row that fills the 112-byte text field to the last byte (or one short)
@@ -906,6 +913,10 @@ func toSubtitlesSTL(d stlDoc, meta string) *astisub.Subtitles {
 		out := ratCeilNs(c.Out.exactNs(rate)) - tcp
 		j := []astisub.Justification{astisub.JustificationUnchanged, astisub.JustificationLeft, astisub.JustificationCentered, astisub.JustificationRight}[c.JC]
 		it := &astisub.Item{StartAt: time.Duration(in), EndAt: time.Duration(out), InlineStyle: &astisub.StyleAttributes{STLJustification: &j, STLPosition: &astisub.STLPosition{VerticalPosition: c.VP, MaxRows: d.GSI.MNR, Rows: len(c.Rows)}}}
+		if c.JC == 1 && c.VP%3 == 0 {
+			// a position without a justification (a partly styled cue): left-justified text is what such a cue gets, at its own row
+			it.InlineStyle.STLJustification = nil
+		}
 		for _, row := range c.Rows {
 			ln := astisub.Line{}
 			for _, r := range row {
